@@ -257,7 +257,7 @@ PROPS.update({
         assumptions=COMMON_ASSUME,
     ),
     'C13': dict(
-        extra_modules=['GraphrsModel.Props.C13Model', 'GraphrsModel.Props.C13Termination', 'GraphrsModel.Props.C13TerminationFull', 'GraphrsModel.Props.FormulasC13'],
+        extra_modules=['GraphrsModel.Props.C13Model', 'GraphrsModel.Props.C13Termination', 'GraphrsModel.Props.C13TerminationFull', 'GraphrsModel.Props.C13Monotone', 'GraphrsModel.Props.FormulasC13'],
         translators=['formulas'],
         gens=[('louv', 'random', 1500, 25000, 9), ('louv', 'ties', 500, 8000, 10), ('louv', 'strand', 1500, 25000, 6), ('louv', 'random', 100, 2000, 20)],
         spec_fields=[r'ok\.levels', r'ok\.nested', r'ok\.monotone', r'ok\.last'], model_fields=[r'build', r'parts'],
@@ -300,9 +300,36 @@ def gnpstat_check(req, I):
         out.append({'field': 'gnpstat.errs', 'impl': I.get('errs'), 'spec': '0 errors for 0 < p < 1'})
     mean = int(I['sum']) / count
     expect = p * pairs
-    allow = expect / max(n - 1, 1) + 4.5 * math.sqrt(pairs * p * (1 - p) / count)
-    if abs(mean - expect) > allow:
-        out.append({'field': 'gnpstat.mean', 'impl': f'mean edges {mean:.3f} over {count} seeds', 'spec': f'{expect:.3f} +- {allow:.3f}'})
+    # total number of edges over all draws: a sum of independent indicator variables with mean between count*expect and
+    # count*expect*(1 + 1/(n-1)); for small means the normal approximation is useless (one edge in 300 draws of a graph with
+    # expectation 1e-4 is a 3% event, not a 4.5 sigma one), so the tails are taken from the Poisson distribution, which
+    # dominates the sum of indicators; an alarm needs a tail probability below 1e-9
+    k = int(I['sum'])
+    lam_lo = count * expect
+    lam_hi = lam_lo * (1 + 1 / max(n - 1, 1))
+    def pois_upper(lam, k):        # P(X >= k)
+        if k <= 0:
+            return 1.0
+        if lam > 700:
+            z = (k - lam) / math.sqrt(lam)
+            return 0.5 * math.erfc(z / math.sqrt(2))
+        term, cdf = math.exp(-lam), 0.0
+        for i in range(k):
+            cdf += term
+            term *= lam / (i + 1)
+        return max(0.0, 1.0 - cdf)
+    def pois_lower(lam, k):        # P(X <= k)
+        if lam > 700:
+            z = (k - lam) / math.sqrt(lam)
+            return 0.5 * math.erfc(-z / math.sqrt(2))
+        term, cdf = math.exp(-lam), 0.0
+        for i in range(k + 1):
+            cdf += term
+            term *= lam / (i + 1)
+        return min(1.0, cdf)
+    if pois_upper(lam_hi, k) < 1e-9 or pois_lower(lam_lo, k) < 1e-9:
+        out.append({'field': 'gnpstat.mean', 'impl': f'{k} edges in {count} draws (mean {mean:.4f})',
+                    'spec': f'mean between {expect:.4f} and {expect * (1 + 1 / max(n - 1, 1)):.4f}: Poisson tail probability below 1e-9'})
     # a pair that can occur (probability >= p per draw) is missing from `count` independent draws with probability <= (1-p)^count
     if n <= 40 and 0 < p < 1 and pairs * (1 - p) ** count < 1e-9 and int(I['union']) != pairs:
         out.append({'field': 'gnpstat.union', 'impl': f'{I["union"]} distinct pairs seen', 'spec': f'all {pairs} pairs can occur'})
@@ -441,7 +468,7 @@ DEGEN_MODEL = [r'get_node', r'has_node', r'get_edges_for_node', r'get_in_edges_f
 PROPS.update({
     'C20': dict(
         quick_scale=1,
-        extra_modules=['GraphrsModel.Props.C20Model'],
+        extra_modules=['GraphrsModel.Props.C20Model', 'GraphrsModel.Props.C20Breadth', 'GraphrsModel.Props.C20BreadthCore', 'GraphrsModel.Props.C20BreadthCluster', 'GraphrsModel.Props.C20BreadthEigen', 'GraphrsModel.Props.C20BreadthPaths'],
         thorough_scale=1,
         gens=[('degen', '-', 864, 864, 0)],
         translators=['pub_fns'],
